@@ -169,7 +169,8 @@ def run(ctx):
     # diamond ladder: 2 files per level, each including both files of the next level.  The
     # number of files is 2(L+1); a walk that re-enters loaded files visits 2^(L+1) of them.
     if not ctx.get("replay"):
-        L = 12 if tier == "quick" else 16
+        # (with the repaired walk the depth is no obstacle: 2^31 visits would never finish)
+        L = 30 if tier == "quick" else 200
         lad = os.path.join(work, "ladder")
         os.makedirs(lad, exist_ok=True)
         for i in range(L + 1):
@@ -182,12 +183,17 @@ def run(ctx):
             inc = 'include "c%d.idl"\n' % (i + 1) if i < 2 * L + 1 else ""
             open(os.path.join(chain, "c%d.idl" % i), "w").write(inc + "struct SC%d { uint8 x; };\n" % i)
         t0 = time.time(); r1 = scrape.idlc_run(ctx["idlc"], os.path.join(chain, "c0.idl"), os.path.join(chain, "o.h"), timeout=120); tc = time.time() - t0
-        t0 = time.time(); r2 = scrape.idlc_run(ctx["idlc"], os.path.join(lad, "a0.idl"), os.path.join(lad, "o.h"), timeout=300); tl = time.time() - t0
+        t0 = time.time(); r2 = scrape.idlc_run(ctx["idlc"], os.path.join(lad, "a0.idl"), os.path.join(lad, "o.h"), timeout=60); tl = time.time() - t0
         res["coverage_ladder"] = {"levels": L, "files": 2 * L + 2, "chain_seconds": round(tc, 3), "ladder_seconds": round(tl, 3), "rc": [r1[0], r2[0]]}
-        if r2[0] != 0 or r1[0] != 0:
-            res["failures"].append({"property": prop, "what": "a valid include ladder/chain is rejected (exit %s/%s)" % (r1[0], r2[0]), "ladder": L})
+        how = ("ladder: files a<i>.idl and b<i>.idl for i = 0..%d, each `include \"a<i+1>.idl\"` and `include \"b<i+1>.idl\"` (none at the last level) "
+               "plus one struct; main file a0.idl; chain: c0.idl .. c%d.idl, each including the next" % (L, 2 * L + 1))
+        if r2[0] in (-9, 124) or tl >= 59:
+            res["failures"].append({"property": prop, "ladder_levels": L, "how_to_build": how,
+                                    "what": "the include walk does not finish on a %d-level diamond ladder (%d files, killed after %.0fs); a chain of as many files takes %.3fs" % (L, 2 * L + 2, tl, tc)})
+        elif r2[0] != 0 or r1[0] != 0:
+            res["failures"].append({"property": prop, "how_to_build": how, "what": "a valid include ladder/chain is rejected (exit %s/%s)" % (r1[0], r2[0]), "ladder": L})
         elif tl > 20 * max(tc, 0.01) and tl > 0.3:
-            res["failures"].append({"property": prop, "known_class": "K_rewalk", "ladder_levels": L,
+            res["failures"].append({"property": prop, "ladder_levels": L, "how_to_build": how,
                                     "what": "include walk re-enters already loaded files: %d-level diamond ladder (%d files) takes %.2fs, a chain of as many files %.3fs" % (L, 2 * L + 2, tl, tc)})
     res["coverage"] = {
         "ladder": res.pop("coverage_ladder", None),
